@@ -69,6 +69,31 @@ def signature(r):
     return f"C01|{r['topology']}|{r['kind']}|{' ; '.join(r['edits'] or [])}|{r['status']}|{','.join(sorted(r['diff']))}"
 
 
+def _services_case(args):
+    """builder objects: an edit on a live system holding service jobs vs the same system built with the final inputs"""
+    name, kw0, edit, kw1 = args
+    H.deterministic_ids(1)
+    out = {"topology": "services:" + name, "kind": "single", "edits": [name], "status": "ok", "diff": [], "shared": False}
+    try:
+        b = H.build_services_system(**kw0)
+        edit(b)
+        fresh = H.build_services_system(**kw1)
+        d = H.diff(H.snapshot(b.system), H.snapshot(fresh.system), rel=1e-9)
+        if d: out["status"] = "stale"; out["diff"] = [f"{o}.{a}" for o, a in d][:10]
+    except Exception as ex:
+        if H.is_float_cancellation_rejection(ex): out["status"] = "D3-float-cancellation"; out["error"] = str(ex)[:100]
+        else: out["status"] = "harness-error"; out["error"] = traceback.format_exc()[-700:]
+    return out
+
+
+SERVICES_EDITS = [
+    ("video_job.service -> a service on another server, with other parameters", {"second_video": True},
+     lambda b: setattr(b["video_job"], "service", b["video2"]), {"video_on_second": True}),
+    ("video_job.resolution = 4K", {}, lambda b: setattr(b["video_job"], "resolution", H.SourceObject("4K (3840 x 2160)")), {"video_resolution": "4K (3840 x 2160)"}),
+    ("webapp.technology = rust", {}, lambda b: setattr(b["webapp"], "technology", H.SourceObject("rust-actix-sqlx")), {"technology": "rust-actix-sqlx"}),
+]
+
+
 def run(tier, seed, procs=16):
     rnd = random.Random(seed)
     T = H.topologies()
@@ -95,6 +120,7 @@ def run(tier, seed, procs=16):
             if eds[p[0]].change and eds[p[1]].change and eds[p[0]].name.split("=")[0].split("->")[0] != eds[p[1]].name.split("=")[0].split("->")[0]:
                 pairs.append((tname, spec, p, "grouped"))
     res += H.run_parallel(_case, pairs, procs)
+    res += [_services_case(x) for x in SERVICES_EDITS]
     viol, samples, nontrivial, d3 = [], [], set(), 0
     for r in res:
         if r["status"] == "harness-error":
